@@ -346,7 +346,7 @@ fn judge_pn(input: &Value, m: ParameterNumberMessage, rep: &mut Report) {
 }
 
 pub fn run(cfg: &Cfg, rep: &mut Report) {
-    rep.rule("serde_json::Value -> from_value::<T> for every public type: restricted integers <- every u16 plus negative / too wide / float / string / bool / null / array / object inputs; ShortMessageType <- every u8 and beyond; RawShortMessage <- every status byte x boundary data bytes and wrong arities; StructuredShortMessage, TimeCodeQuarterFrame, TimeCodeType, DataType, ControlChange14BitMessage, ParameterNumberMessage <- the natural representation of valid values with every single leaf replaced by boundary / wrong-type values, fields removed and added, plus boundary products of the composite fields; oracle: Err, or a value that passes the range observer and is rebuildable through the checked constructors (and whose accessors/encoders do not panic); round trip from_value(to_value(v)) == v over sweeps of valid values; non-trivial = an input whose acceptance is decided by an invariant (not by shape alone)");
+    rep.rule("serde_json::Value -> from_value::<T> for every public type: restricted integers <- every u16 plus negative / too wide / float / string / bool / null / array / object inputs; ShortMessageType <- every u8 and beyond; RawShortMessage <- every status byte x boundary data bytes and wrong arities; StructuredShortMessage, TimeCodeQuarterFrame, TimeCodeType, DataType, ControlChange14BitMessage, ParameterNumberMessage <- the natural representation of valid values with every single leaf replaced by boundary / wrong-type values, fields removed and added, plus boundary products of the composite fields; oracle: Err, or a value that passes the range observer and is rebuildable through the checked constructors (and whose accessors/encoders do not panic); round trip from_value(to_value(v)) == v over sweeps of valid values; non-trivial = an input whose acceptance is decided by an invariant (not by shape alone) ; sequence-shaped (positional) round trip of ControlChange14BitMessage and ParameterNumberMessage");
     let mut rng = Rng::derive(cfg.seed, 0xC19);
     newtype_sweep!(U4, "U4", 15u32, rep);
     newtype_sweep!(U7, "U7", 127u32, rep);
